@@ -186,8 +186,10 @@ pub fn parse(
     parse_file_context: ParseFileContext,
 ) -> Result<Option<ParsedData>, ParseError> {
     // We will only produce output for files that contain the `#[typeshare]`
-    // attribute, so this is a quick and easy performance win
-    if !parse_file_context.source_code.contains("#[typeshare") {
+    // attribute, so this is a quick and easy performance win. The attribute can
+    // be written through a path (`#[::typeshare::typeshare]`) or with white space
+    // after the bracket, so the test is for the name alone.
+    if !parse_file_context.source_code.contains(TYPESHARE) {
         return Ok(None);
     }
 
